@@ -375,6 +375,20 @@ class JacobianAssembly:
                             break
 
             if variable not in self.sizes:
+                # No linearized discipline depends on the variable,
+                # e.g. when the functions do not depend on it: use the input data.
+                for discipline in self.coupling_structure.disciplines:
+                    input_grammar = discipline.io.input_grammar
+                    if variable in input_grammar and variable in discipline.io.data:
+                        self.sizes[variable] = (
+                            input_grammar.data_converter.get_value_size(
+                                variable, discipline.io.data[variable]
+                            )
+                        )
+                        self.disciplines[variable] = discipline
+                        break
+
+            if variable not in self.sizes:
                 msg = f"Failed to determine the size of input variable {variable}"
                 raise ValueError(msg)
 
@@ -438,7 +452,11 @@ class JacobianAssembly:
         # Iterate over outputs
         for row_index, function in enumerate(functions):
             column = 0
-            function_jacobian = self.disciplines[function].jac[function]
+            # A discipline which is not linearized with respect to the function
+            # does not depend on the variables: its Jacobian is zero.
+            function_jacobian = (self.disciplines[function].jac or {}).get(
+                function, {}
+            )
             # Iterate over inputs
             for column_index, variable in enumerate(variables):
                 jacobian = function_jacobian.get(variable, None)
